@@ -12,7 +12,8 @@ ASSUMPTIONS = seq.SEQ_ASSUMPTIONS
 RULE = ("every digraph on <=4 nodes (thorough: 5) without self-loops and "
         "every digraph on <=3 nodes with self-loops, placed at the top of a "
         "PureScheduler, of a Scheduler, and at depth 1 and 2 of an otherwise "
-        "acyclic tree (top Pure or nestable); plus explicit-state search over "
+        "acyclic tree (top Pure or nestable) in which jobs precede and follow "
+        "each nested scheduler; plus explicit-state search over "
         "edit histories (every edge toggled through requires()/requires("
         "remove=True) from every reachable state on 3 nodes, thorough 4). "
         "oracle: check_cycles() == reference acyclicity of the graphs the "
